@@ -4,6 +4,7 @@ import (
 	"context"
 	"errors"
 	"fmt"
+	"math"
 	"net"
 	"strconv"
 	"strings"
@@ -46,6 +47,7 @@ type stringerVal struct{ s string }
 func (s stringerVal) String() string { return s.s }
 
 type serverWorld struct {
+	cancelOf map[string]context.CancelFunc // per request prefix (direct callers with ReqSc.Ctx == 2)
 	x                *X
 	s                *simrt.Sim
 	exec             *kmipserver.BatchExecutor
@@ -126,6 +128,11 @@ func (w *serverWorld) handle(ctx context.Context, p *payloads.ActivateRequestPay
 		case a == "pn":
 			var np *payloads.ActivateRequestPayload
 			_ = np.UniqueIdentifier
+		case a == "cc":
+			if cancel := w.cancelOf[requestOf(id)]; cancel != nil {
+				w.s.Fault("handler-cancels-request-context")
+				cancel()
+			}
 		case a == "cx":
 			if err := ctx.Err(); err != nil {
 				w.record(hEvent{Token: tok, ID: id, Kind: "ctxdone"})
@@ -181,8 +188,24 @@ func (w *serverWorld) handle(ctx context.Context, p *payloads.ActivateRequestPay
 	return &payloads.ActivateResponsePayload{UniqueIdentifier: tok}, nil
 }
 
+// requestContext builds the context a direct HandleRequest caller passes for this request.
+func (w *serverWorld) requestContext(rs *ReqSc, prefix string) context.Context {
+	switch rs.Ctx {
+	case 1:
+		ctx, cancel := context.WithCancel(context.Background())
+		cancel()
+		w.s.Fault("request-context-cancelled")
+		return ctx
+	case 2:
+		ctx, cancel := context.WithCancel(context.Background())
+		w.cancelOf[prefix] = cancel
+		return ctx
+	}
+	return context.Background()
+}
+
 func newServerWorld(x *X) *serverWorld {
-	w := &serverWorld{x: x, s: x.S}
+	w := &serverWorld{x: x, s: x.S, cancelOf: map[string]context.CancelFunc{}}
 	w.exec = kmipserver.NewBatchExecutor()
 	w.exec.Route(kmip.OperationActivate, kmipserver.HandleFunc(w.handle))
 	return w
@@ -232,12 +255,15 @@ type ItemSc struct {
 type ReqSc struct {
 	Version    int      `json:"version"`               // index into allVersions; 5 = unsupported 2.0; 6 = 0.9
 	Option     int      `json:"option,omitempty"`      // 0 unset 1 continue 2 stop 3 undo
-	CountDelta int      `json:"count_delta,omitempty"` // header BatchCount = len(items) + delta
+	CountDelta int      `json:"count_delta,omitempty"` // header BatchCount = len(items) + delta; -1000: -1, -2000: MinInt32, 1000: MaxInt32
 	Items      []ItemSc `json:"items"`
 	// Hdr: optional header elements none of which may change what the properties state
 	// bits 0-1 BatchOrderOption (0 absent, 1 true, 2 false) | 4 AsynchronousIndicator=false | 8 MaximumResponseSize
 	// | 16 ClientCorrelationValue | 32 no TimeStamp | 64 Authentication (username/password credential)
 	Hdr int `json:"hdr,omitempty"`
+	// Ctx (direct HandleRequest callers only): 0 a live context, 1 a context that is already cancelled, 2 a context
+	// that the handler of the item whose token starts with "cc" cancels. None of this may change the response.
+	Ctx int `json:"ctx,omitempty"`
 }
 
 // genHdr draws the optional header elements of a request (half of the requests carry none).
@@ -277,6 +303,14 @@ func buildRequest(rs *ReqSc, prefix string) *kmip.RequestMessage {
 	ts := time.Unix(1700000000, 0).UTC()
 	req := &kmip.RequestMessage{Header: kmip.RequestHeader{ProtocolVersion: versionOf(rs.Version), TimeStamp: &ts,
 		BatchErrorContinuationOption: optionVals[rs.Option%4], BatchCount: int32(len(rs.Items) + rs.CountDelta)}}
+	switch rs.CountDelta {
+	case -1000:
+		req.Header.BatchCount = -1
+	case -2000:
+		req.Header.BatchCount = math.MinInt32
+	case 1000:
+		req.Header.BatchCount = math.MaxInt32
+	}
 	switch rs.Hdr & 3 {
 	case 1:
 		v := true
